@@ -97,7 +97,12 @@ func TestC01(t *testing.T) {
 		bs := lib.GenBatchSize(rt)
 		pairs := lib.GenStore(rt, kind, lib.GenStoreSize(rt))
 		ctx := &lib.GenCtx{Kind: kind, Pairs: pairs}
-		where := ctx.GenBool(rt, rapid.IntRange(0, 4).Draw(rt, "depth"))
+		// GenWhere: now and then a predicate over a list value (IN over a
+		// function result, len, [n]) joins the Boolean tree
+		where := ctx.GenWhere(rt, rapid.IntRange(0, 4).Draw(rt, "depth"))
+		if rapid.IntRange(0, 9).Draw(rt, "listOnly") == 0 {
+			where = ctx.ListPredicate(rt)
+		}
 		st := &lib.Stmt{Kind: "select", Star: true, Where: where, NoSelKW: rapid.IntRange(0, 4).Draw(rt, "bareWhere") == 0}
 		c := &c01Case{Stmt: st, Pairs: pairs, Batch: bs}
 		lib.Journal("C01", "c01", c)
